@@ -99,11 +99,11 @@ def classify(scn, iout):
             continue
         feat = feat or features(scn)
         fid = None
-        if got[0] == "mismatch" and feat["ndim_disagree"] and all(c in su.NDIM_BY_FIRST_UPDATE for c, _ in feat["ndim_disagree"]):
+        if got[0] == "mismatch" and not su.detect_variant()["D10"] and feat["ndim_disagree"] and all(c in su.NDIM_BY_FIRST_UPDATE for c, _ in feat["ndim_disagree"]):
             fid = "C02-ndim-first-update"
         elif got[0] == "exc" and got[1] in ("TypeError", "ValueError") and feat["bcast_root_shifted"] and not su.detect_variant()["D9"]:
             fid = "C02-subgroup-bcast-root"
-        elif got[0] in ("ok", "exc") and feat["dict_unequal_keys"] and not feat["ndim_disagree"] and (not feat["bcast_root_shifted"] or su.detect_variant()["D9"]):
+        elif got[0] in ("ok", "exc") and feat["dict_unequal_keys"] and (not feat["ndim_disagree"] or su.detect_variant()["D10"]) and (not feat["bcast_root_shifted"] or su.detect_variant()["D9"]):
             fid = "C02-dict-unequal-keys"
         bad.append((fid, f"group rank {j}: toolkit.{scn['entry']} gave {got!r:.220}; local merge gives {want!r:.220}"))
         break
@@ -125,6 +125,16 @@ WITNESSES = {
         {"kind": "toolkit", "W": 3, "group": [1, 2], "dst": None, "entry": "sync_and_compute",
          "members": [[["metric", "Cat", []]], [["metric", "Cat", [[cat_spec([5, 6])]]]]]}),
 }
+
+
+_X22 = {"dtype": "float32", "shape": [2, 2], "data": [[1, 2], [3, 4]]}
+_Z22 = {"dtype": "float32", "shape": [2, 2], "data": [[0, 0], [0, 0]]}
+# D10 witnesses for the real-gloo launches (they join a launch only when the checking transport reports
+# no mismatch, i.e. on a tree where D10 is repaired: on gloo a mismatch is an abort)
+GLOO_WITNESSES = [
+    {"kind": "toolkit", "W": W, "group": list(range(W)), "dst": None, "entry": "sync_and_compute",
+     "members": [[["metric", ck, []]]] + [[["metric", ck, [[_X22, _Z22]] if ck != "Covariance" else [[_X22]]]]] * (W - 1)}
+    for W in (2, 3, 4) for ck in ("MeanSquaredErrorRaw", "R2ScoreRaw", "Covariance")]
 
 
 def tie_stream(ctx, count):
@@ -277,4 +287,4 @@ def run(ctx):
     tie_stream(ctx, ctx.n(700, 6000))
     witness_stream(ctx)
     from .. import gloo_runner
-    gloo_runner.gloo_stream(ctx, [lambda rng, W: gen_toolkit(rng, only_W=W)], toolkit=True)
+    gloo_runner.gloo_stream(ctx, [lambda rng, W: gen_toolkit(rng, only_W=W)], toolkit=True, extra=GLOO_WITNESSES)
